@@ -5,7 +5,7 @@
 //!   {"id":7,"n":3,"creator":0,"registered":[true,false,true],
 //!    "ops":[["clone","send:1","drop"],["get_mut","drop"],[]],
 //!    "schedule":[0,0,1,...],"seed":null,"max_steps":4000}
-//!   operations: clone | drop | send:K | get_mut | unwrap | read | count | merge | register |
+//!   operations: clone | drop | send:K | get_mut | make_mut | unwrap | read | count | merge | register |
 //!               exit (drop everything held, finish_thread_merge, thread ends) |
 //!               die  (drop everything held, thread ends without merging)
 //! stdout: one JSON line per case
@@ -30,12 +30,22 @@ static DROPS: AtomicUsize = AtomicUsize::new(0);
 struct Payload {
     magic: u64,
     writes: u64,
+    /// 0 for the value under test; copies made by make_mut are other values and are not counted
+    copy: u32,
 }
 
 impl Drop for Payload {
     fn drop(&mut self) {
-        DROPS.fetch_add(1, Ordering::SeqCst);
+        if self.copy == 0 {
+            DROPS.fetch_add(1, Ordering::SeqCst);
+        }
         self.magic = DEADBEEF;
+    }
+}
+
+impl Clone for Payload {
+    fn clone(&self) -> Self {
+        Payload { magic: ALIVE, writes: self.writes, copy: self.copy + 1 }
     }
 }
 
@@ -73,7 +83,7 @@ fn worker(i: usize, sh: Arc<Shared>, ops: Vec<String>, registered: bool, creator
     }
     let mut refs: Vec<Ref> = Vec::new();
     if creator {
-        refs.push(BiasedRc::new(Payload { magic: ALIVE, writes: 0 }));
+        refs.push(BiasedRc::new(Payload { magic: ALIVE, writes: 0, copy: 0 }));
         sh.live.fetch_add(1, Ordering::SeqCst);
     }
     verif::attach(i);
@@ -123,6 +133,31 @@ fn worker(i: usize, sh: Arc<Shared>, ops: Vec<String>, registered: bool, creator
                         }
                     } else {
                         out.push("get_mut:na".to_string());
+                    }
+                }
+                "make_mut" => {
+                    if let Some(r) = refs.last_mut() {
+                        let before = BiasedRc::as_ptr(r);
+                        let p = BiasedRc::make_mut(r);
+                        p.writes += 1;
+                        let after = BiasedRc::as_ptr(r);
+                        if std::ptr::eq(before, after) {
+                            let live = sh.live.load(Ordering::SeqCst);
+                            if live != 1 {
+                                sh.bad.lock().unwrap().push(format!(
+                                    "thread {i}: get_mut returned Some while {live} references are alive (make_mut kept the value)"));
+                            }
+                            out.push("make_mut:unique".to_string());
+                        } else {
+                            // this reference was dropped and replaced by a reference to a fresh copy,
+                            // which is a different value: set it aside
+                            sh.live.fetch_sub(1, Ordering::SeqCst);
+                            let fresh = refs.pop().unwrap();
+                            std::mem::forget(fresh);
+                            out.push("make_mut:cloned".to_string());
+                        }
+                    } else {
+                        out.push("make_mut:na".to_string());
                     }
                 }
                 "unwrap" => {
